@@ -10,6 +10,8 @@ import (
 	"strings"
 
 	"canvascheck/internal/core"
+
+	"golang.org/x/tools/go/packages"
 )
 
 // E11 — small typestate/consistency rules (DESIGN.md §2 E11).
@@ -6606,4 +6608,857 @@ func E11RunCoversCodes(c *core.Ctx, r *core.Report) {
 	})
 	r.Count("E11.run-length-loops", n)
 	r.Floor("E11.run-length-loops", 1)
+}
+
+// E11SelectorHash: the id selector arrives from the CSS lexer as one hash token.
+func E11SelectorHash(c *core.Ctx, r *core.Report) {
+	r.Rule("E11.selector-hash", "producer/consumer agreement between the CSS lexer of the pinned dependency and svgParser.parseStyle: css.Lexer.Next returns HashToken for `#name` (decided on the lexer's source: a return statement of Next yields the constant), so an id selector never reaches the selector loop as the delimiter `#` followed by an identifier. The loop therefore has a branch on TokenType == css.HashToken that adds the attribute selector id = name with the leading `#` cut off. Without it the compound stays universal and `#a{fill:red}` paints every element")
+	p := c.MustPkg("")
+	info := p.TypesInfo
+	var cssPkg *packages.Package
+	for path, ip := range p.Imports {
+		if strings.HasSuffix(path, "/parse/v2/css") {
+			cssPkg = ip
+		}
+	}
+	if cssPkg == nil || len(cssPkg.Syntax) == 0 {
+		panic(core.Infra("the css package of tdewolff/parse is not loaded with syntax"))
+	}
+	hash := cssPkg.Types.Scope().Lookup("HashToken")
+	if hash == nil {
+		panic(core.Infra("css.HashToken not found"))
+	}
+	// producer
+	emits := false
+	for _, fd := range core.AllFuncDecls(cssPkg) {
+		if fd.Name.Name != "Next" || fd.Recv == nil {
+			continue
+		}
+		ast.Inspect(fd.Body, func(m ast.Node) bool {
+			if ret, ok := m.(*ast.ReturnStmt); ok && len(ret.Results) > 0 {
+				if id, ok := core.Unparen(ret.Results[0]).(*ast.Ident); ok && cssPkg.TypesInfo.Uses[id] == hash {
+					emits = true
+				}
+			}
+			return true
+		})
+	}
+	key := "css.Lexer.Next|returns HashToken"
+	if emits {
+		r.OK("E11.selector-hash", key, "dependency", "")
+	} else {
+		r.Fail("E11.selector-hash", key, "dependency", "no return of HashToken found in the lexer's Next: the premise of the rule does not hold for this version of the dependency")
+		return
+	}
+	// consumer
+	fd := core.MustFuncDecl(p, "svgParser.parseStyle")
+	r.Func("canvas.svgParser.parseStyle")
+	key = "canvas.svgParser.parseStyle|hash token becomes an id selector"
+	mentionsHash := func(e ast.Expr) bool {
+		found := false
+		ast.Inspect(e, func(m ast.Node) bool {
+			switch x := m.(type) {
+			case *ast.SelectorExpr:
+				if info.Uses[x.Sel] == hash {
+					found = true
+				}
+			case *ast.Ident:
+				if info.Uses[x] == hash {
+					found = true
+				}
+			}
+			return true
+		})
+		return found
+	}
+	// an id selector literal: cssAttrSelector{…attr: "id"…} whose val cuts off the first byte
+	idSelector := func(n ast.Node) (found, cut bool) {
+		ast.Inspect(n, func(m ast.Node) bool {
+			cl, ok := m.(*ast.CompositeLit)
+			if !ok {
+				return true
+			}
+			if t := info.TypeOf(cl); t == nil || !strings.HasSuffix(t.String(), "cssAttrSelector") {
+				return true
+			}
+			isID := false
+			var val ast.Expr
+			for _, el := range cl.Elts {
+				kv, ok := el.(*ast.KeyValueExpr)
+				if !ok {
+					continue
+				}
+				k, _ := kv.Key.(*ast.Ident)
+				if k == nil {
+					continue
+				}
+				if tv, ok := info.Types[kv.Value]; ok && tv.Value != nil && k.Name == "attr" && tv.Value.ExactString() == `"id"` {
+					isID = true
+				}
+				if k.Name == "val" {
+					val = kv.Value
+				}
+			}
+			if !isID {
+				return true
+			}
+			found = true
+			if val != nil {
+				ast.Inspect(val, func(k ast.Node) bool {
+					switch x := k.(type) {
+					case *ast.SliceExpr:
+						if v, ok := core.ConstInt(info, x.Low); x.Low != nil && ok && v == 1 {
+							cut = true
+						}
+					case *ast.CallExpr:
+						if f := core.CalleeOf(info, x); f != nil && (f.Name() == "TrimPrefix" || f.Name() == "TrimLeft") {
+							cut = true
+						}
+					}
+					return true
+				})
+			}
+			return true
+		})
+		return
+	}
+	state := 0 // 1: branch found, 2: with id selector, 3: with the '#' cut off
+	var at token.Pos = fd.Pos()
+	ast.Inspect(fd.Body, func(m ast.Node) bool {
+		var body ast.Node
+		switch x := m.(type) {
+		case *ast.IfStmt:
+			if mentionsHash(x.Cond) {
+				body = x.Body
+			}
+		case *ast.CaseClause:
+			for _, e := range x.List {
+				if mentionsHash(e) {
+					body = x
+				}
+			}
+		}
+		if body == nil {
+			return true
+		}
+		s := 1
+		if f, cut := idSelector(body); f {
+			s = 2
+			if cut {
+				s = 3
+			}
+		}
+		if s > state {
+			state, at = s, m.Pos()
+		}
+		return true
+	})
+	switch state {
+	case 3:
+		r.OK("E11.selector-hash", key, c.Pos(at), "")
+	case 2:
+		r.Fail("E11.selector-hash", key, c.Pos(at), "the id selector built from the hash token keeps the leading `#` in its value: it is compared with the id attribute and never matches")
+	case 1:
+		r.Fail("E11.selector-hash", key, c.Pos(at), "the branch on css.HashToken adds no id attribute selector")
+	default:
+		r.Fail("E11.selector-hash", key, c.Pos(at), "the selector loop has no branch on css.HashToken: the lexer delivers `#name` as one hash token (never as the delimiter `#` plus an identifier), the compound selector stays universal and a rule `#a{…}` is applied to every element")
+	}
+	r.Count("E11.selector-hash-consumers", 1)
+	r.Floor("E11.selector-hash-consumers", 1)
+}
+
+// E11ImplicitCommand: the command ParseSVGPath remembers for further coordinate sets.
+func E11ImplicitCommand(c *core.Ctx, r *core.Report) {
+	r.Rule("E11.implicit-command", "ParseSVGPath: coordinate sets that follow a command without a new letter repeat that command, except that after a moveto they are linetos — relative ones after `m`, absolute ones after `M` (SVG 1.1 §8.3.2). Each case of the command switch is walked once per letter of its label with the conditions on the command variable decided for that letter; at the end of every path the command variable holds the letter itself, or `L` for `M` and `l` for `m`. Remembering `L` after `m` reads `m10 10 5 0` as a line to the absolute point (5,0)")
+	p := c.MustPkg("")
+	info := p.TypesInfo
+	fd := core.MustFuncDecl(p, "ParseSVGPath")
+	r.Func("canvas.ParseSVGPath")
+	var sw *ast.SwitchStmt
+	var cmdObj types.Object
+	ast.Inspect(fd.Body, func(n ast.Node) bool {
+		s, ok := n.(*ast.SwitchStmt)
+		if !ok || s.Tag == nil {
+			return true
+		}
+		letters := 0
+		for _, cs := range s.Body.List {
+			for _, e := range cs.(*ast.CaseClause).List {
+				if v, ok := core.ConstInt(info, e); ok && (v >= 'A' && v <= 'Z' || v >= 'a' && v <= 'z') {
+					letters++
+				}
+			}
+		}
+		if id, ok := core.Unparen(s.Tag).(*ast.Ident); ok && letters >= 10 && sw == nil {
+			sw, cmdObj = s, core.ObjOf(info, id)
+		}
+		return true
+	})
+	if sw == nil || cmdObj == nil {
+		panic(core.Infra("E11.implicit-command: the command switch of ParseSVGPath was not found"))
+	}
+	n := 0
+	for _, cs := range sw.Body.List {
+		cc := cs.(*ast.CaseClause)
+		for _, e := range cc.List {
+			v, ok := core.ConstInt(info, e)
+			if !ok || !(v >= 'A' && v <= 'Z' || v >= 'a' && v <= 'z') {
+				continue
+			}
+			letter := rune(v)
+			want := letter
+			switch letter {
+			case 'M':
+				want = 'L'
+			case 'm':
+				want = 'l'
+			}
+			n++
+			key := fmt.Sprintf("canvas.ParseSVGPath|command remembered after `%c`", letter)
+			// walk all paths; cur < 0: not a known constant
+			type result struct {
+				cur rune
+				pos token.Pos
+			}
+			var finals []result
+			var walk func(stmts []ast.Stmt, cur rune, pos token.Pos, k func(rune, token.Pos))
+			walk = func(stmts []ast.Stmt, cur rune, pos token.Pos, k func(rune, token.Pos)) {
+				if len(stmts) == 0 {
+					k(cur, pos)
+					return
+				}
+				st, rest := stmts[0], stmts[1:]
+				next := func(cu rune, po token.Pos) { walk(rest, cu, po, k) }
+				env := func(x ast.Expr) tri {
+					be, ok := x.(*ast.BinaryExpr)
+					if !ok || (be.Op != token.EQL && be.Op != token.NEQ) || cur < 0 {
+						return tUnknown
+					}
+					var other ast.Expr
+					if id, ok := core.Unparen(be.X).(*ast.Ident); ok && core.ObjOf(info, id) == cmdObj {
+						other = be.Y
+					} else if id, ok := core.Unparen(be.Y).(*ast.Ident); ok && core.ObjOf(info, id) == cmdObj {
+						other = be.X
+					}
+					if other == nil {
+						return tUnknown
+					}
+					if v, ok := core.ConstInt(info, other); ok {
+						return triOf((rune(v) == cur) == (be.Op == token.EQL))
+					}
+					return tUnknown
+				}
+				switch x := st.(type) {
+				case *ast.ReturnStmt:
+					return
+				case *ast.BranchStmt:
+					if x.Tok == token.BREAK || x.Tok == token.CONTINUE {
+						finals = append(finals, result{cur, pos})
+					}
+					return
+				case *ast.BlockStmt:
+					walk(x.List, cur, pos, next)
+					return
+				case *ast.IfStmt:
+					t := evalBool(info, x.Cond, env)
+					if t != tFalse {
+						walk(x.Body.List, cur, pos, next)
+					}
+					if t != tTrue {
+						switch el := x.Else.(type) {
+						case nil:
+							next(cur, pos)
+						case *ast.BlockStmt:
+							walk(el.List, cur, pos, next)
+						case *ast.IfStmt:
+							walk([]ast.Stmt{el}, cur, pos, next)
+						}
+					}
+					return
+				case *ast.AssignStmt:
+					for i, l := range x.Lhs {
+						if id, ok := l.(*ast.Ident); ok && core.ObjOf(info, id) == cmdObj {
+							cur = -1
+							if x.Tok == token.ASSIGN && len(x.Rhs) == len(x.Lhs) {
+								if v, ok := core.ConstInt(info, x.Rhs[i]); ok {
+									cur = rune(v)
+								}
+							}
+							pos = x.Pos()
+						}
+					}
+				}
+				walk(rest, cur, pos, k)
+			}
+			walk(cc.Body, letter, cc.Pos(), func(cu rune, po token.Pos) { finals = append(finals, result{cu, po}) })
+			bad := false
+			for _, f := range finals {
+				if f.cur == want {
+					continue
+				}
+				bad = true
+				got := "a value that is not a constant"
+				if f.cur >= 0 {
+					got = fmt.Sprintf("`%c`", f.cur)
+				}
+				r.Fail("E11.implicit-command", key, c.Pos(f.pos), fmt.Sprintf("after `%c` the command remembered for further coordinate sets is %s, want `%c`: the following numbers are read with the wrong command or the wrong relativity", letter, got, want))
+				break
+			}
+			if !bad {
+				r.OK("E11.implicit-command", key, c.Pos(cc.Pos()), fmt.Sprintf("%d path(s)", len(finals)))
+			}
+		}
+	}
+	r.Count("E11.implicit-command-letters", n)
+	r.Floor("E11.implicit-command-letters", 20)
+}
+
+// E11RemapIffSplit: the second root of xmonotoneCubicBezier is re-mapped exactly when the curve was cut at the first.
+func E11RemapIffSplit(c *core.Ctx, r *core.Report) {
+	r.Rule("E11.remap-iff-split", "xmonotoneCubicBezier cuts a cubic at the roots t1 ≤ t2 of x'(t). After a cut at t1 the control points are replaced by those of the remainder, on which the second root has the parameter (t2−t1)/(1−t1); without that cut the curve is still the whole one and t2 is used as it is. The re-mapping statement is therefore guarded by exactly the event `the control points were replaced`: a flag that starts false and is raised only in the block that replaces them, or the same condition as that block. A guard that merely compares the roots (t1 < t2 holds also for a root t1 < 0 that caused no cut) re-maps t2 on the whole curve and the cut misses the x-extreme: a piece of XMonotone's result is not x-monotone")
+	p := c.MustPkg("")
+	info := p.TypesInfo
+	fd := core.MustFuncDecl(p, "xmonotoneCubicBezier")
+	r.Func("canvas.xmonotoneCubicBezier")
+	key := "canvas.xmonotoneCubicBezier|second root re-mapped iff the curve was cut at the first"
+	params := map[types.Object]bool{}
+	for _, f := range fd.Type.Params.List {
+		for _, nm := range f.Names {
+			params[info.Defs[nm]] = true
+		}
+	}
+	// the block that replaces the control points by results of a split call
+	var cutIf *ast.IfStmt
+	var cutParam types.Object
+	for _, st := range fd.Body.List {
+		is, ok := st.(*ast.IfStmt)
+		if !ok || cutIf != nil {
+			continue
+		}
+		splitRes := map[types.Object]bool{}
+		var tArg types.Object
+		replaced := false
+		for _, s := range is.Body.List {
+			as, ok := s.(*ast.AssignStmt)
+			if !ok {
+				continue
+			}
+			if len(as.Rhs) == 1 {
+				if call, ok := core.Unparen(as.Rhs[0]).(*ast.CallExpr); ok {
+					if f := core.CalleeOf(info, call); f != nil && strings.HasSuffix(f.Name(), "BezierSplit") && len(call.Args) > 0 {
+						for _, l := range as.Lhs {
+							if id, ok := l.(*ast.Ident); ok && id.Name != "_" {
+								splitRes[core.ObjOf(info, id)] = true
+							}
+						}
+						if id, ok := core.Unparen(call.Args[len(call.Args)-1]).(*ast.Ident); ok {
+							tArg = core.ObjOf(info, id)
+						}
+						continue
+					}
+				}
+			}
+			if len(as.Lhs) == len(as.Rhs) && len(as.Lhs) >= 3 {
+				all := true
+				for i := range as.Lhs {
+					l, ok1 := as.Lhs[i].(*ast.Ident)
+					rr, ok2 := core.Unparen(as.Rhs[i]).(*ast.Ident)
+					if !ok1 || !ok2 || !params[core.ObjOf(info, l)] || !splitRes[core.ObjOf(info, rr)] {
+						all = false
+					}
+				}
+				if all {
+					replaced = true
+				}
+			}
+		}
+		if replaced && tArg != nil {
+			cutIf, cutParam = is, tArg
+		}
+	}
+	if cutIf == nil {
+		r.Fail("E11.remap-iff-split", key, c.Pos(fd.Pos()), "the block that cuts at the first root and replaces the control points by the remainder was not found")
+		return
+	}
+	// the re-mapping: X = (X - t1) / (1 - t1)
+	mentions := func(e ast.Expr, o types.Object) bool {
+		f := false
+		ast.Inspect(e, func(k ast.Node) bool {
+			if id, ok := k.(*ast.Ident); ok && core.ObjOf(info, id) == o {
+				f = true
+			}
+			return true
+		})
+		return f
+	}
+	var remap *ast.AssignStmt
+	var path []ast.Node
+	var stack []ast.Node
+	ast.Inspect(fd.Body, func(n ast.Node) bool {
+		if n == nil {
+			stack = stack[:len(stack)-1]
+			return true
+		}
+		stack = append(stack, n)
+		as, ok := n.(*ast.AssignStmt)
+		if !ok || len(as.Lhs) != 1 || len(as.Rhs) != 1 || as.Pos() < cutIf.End() {
+			return true
+		}
+		id, ok := as.Lhs[0].(*ast.Ident)
+		if !ok {
+			return true
+		}
+		x := core.ObjOf(info, id)
+		be, ok := core.Unparen(as.Rhs[0]).(*ast.BinaryExpr)
+		if !ok || be.Op != token.QUO || x == cutParam {
+			return true
+		}
+		num, ok1 := core.Unparen(be.X).(*ast.BinaryExpr)
+		den, ok2 := core.Unparen(be.Y).(*ast.BinaryExpr)
+		if ok1 && ok2 && num.Op == token.SUB && den.Op == token.SUB && mentions(num.X, x) && mentions(num.Y, cutParam) && mentions(den.Y, cutParam) {
+			remap = as
+			path = append([]ast.Node{}, stack...)
+		}
+		return true
+	})
+	if remap == nil {
+		r.Fail("E11.remap-iff-split", key, c.Pos(cutIf.Pos()), "after the cut at the first root no statement re-maps the second root onto the remainder ((t2−t1)/(1−t1)): the second cut is made at the parameter of the whole curve")
+		return
+	}
+	// guards of the re-mapping
+	condStr := types.ExprString(cutIf.Cond)
+	okGuard, why := false, ""
+	for i := len(path) - 2; i >= 0 && !okGuard; i-- {
+		is, ok := path[i].(*ast.IfStmt)
+		if !ok || !(is.Body.Pos() <= remap.Pos() && remap.End() <= is.Body.End()) {
+			continue
+		}
+		if types.ExprString(is.Cond) == condStr {
+			// the same condition: its operands must not change in between
+			okGuard = true
+			continue
+		}
+		if id, ok := core.Unparen(is.Cond).(*ast.Ident); ok {
+			flag := core.ObjOf(info, id)
+			// flag: starts false, raised only inside cutIf.Body
+			good, seenInit, raised := true, false, false
+			ast.Inspect(fd.Body, func(k ast.Node) bool {
+				as, ok := k.(*ast.AssignStmt)
+				if !ok {
+					return true
+				}
+				for j, l := range as.Lhs {
+					lid, ok := l.(*ast.Ident)
+					if !ok || core.ObjOf(info, lid) != flag || j >= len(as.Rhs) {
+						continue
+					}
+					v := types.ExprString(as.Rhs[j])
+					inCut := cutIf.Body.Pos() <= as.Pos() && as.End() <= cutIf.Body.End()
+					switch {
+					case as.Tok == token.DEFINE && v == "false":
+						seenInit = true
+					case v == "true" && inCut:
+						raised = true
+					default:
+						good = false
+					}
+				}
+				return true
+			})
+			if good && seenInit && raised {
+				okGuard = true
+			} else {
+				if why == "" {
+					why = fmt.Sprintf("the flag `%s` is not raised exactly in the block that replaces the control points", id.Name)
+				}
+			}
+			continue
+		}
+		if why == "" {
+			why = fmt.Sprintf("its guard `%s` is not the event that the curve was cut at the first root (condition `%s`)", types.ExprString(is.Cond), condStr)
+		}
+	}
+	if okGuard {
+		r.OK("E11.remap-iff-split", key, c.Pos(remap.Pos()), "")
+	} else {
+		if why == "" {
+			why = "it is not guarded at all"
+		}
+		r.Fail("E11.remap-iff-split", key, c.Pos(remap.Pos()), "the second root is re-mapped onto the remainder although the curve may not have been cut: "+why+"; a first root outside (0,1) then moves the second cut off the x-extreme")
+	}
+	r.Count("E11.remap-sites", 1)
+	r.Floor("E11.remap-sites", 1)
+}
+
+// E11SignedMagnitude: orientation-signed quantities are compared by magnitude only through math.Abs.
+func E11SignedMagnitude(c *core.Ctx, r *core.Report) {
+	r.Rule("E11.signed-magnitude", "path_stroke.go: the joiners negate the half width for clockwise bends (`if cw { hw = -hw }`), so that every value derived from it carries the bend's orientation in its sign. Such an orientation-signed value (taint seeded by a conditional self-negation, propagated through arithmetic, removed by math.Abs, Length and squaring) takes part in an ordering comparison only as a sign test against zero, against another orientation-signed value, or inside math.Abs. Comparing it bare with a non-negative magnitude such as limit·halfWidth makes the test one-sided: for right turns the miter limit never fires and the full spike is emitted")
+	p := c.MustPkg("")
+	info := p.TypesInfo
+	n := 0
+	for _, fd := range core.AllFuncDecls(p) {
+		if !strings.HasSuffix(c.Fset.Position(fd.Pos()).Filename, "path_stroke.go") {
+			continue
+		}
+		tainted := map[types.Object]bool{}
+		// does e mention a tainted variable outside a magnitude wrapper?
+		var signed func(e ast.Expr) bool
+		signed = func(e ast.Expr) bool {
+			switch x := core.Unparen(e).(type) {
+			case *ast.Ident:
+				return tainted[core.ObjOf(info, x)]
+			case *ast.CallExpr:
+				if name, _ := core.MathFunc(info, x); name == "Abs" || name == "Hypot" {
+					return false
+				}
+				if f := core.CalleeOf(info, x); f != nil && (f.Name() == "Length" || f.Name() == "Equals" || f.Name() == "Equal") {
+					return false
+				}
+				if name, _ := core.MathFunc(info, x); name == "Max" || name == "Min" || name == "Copysign" {
+					for _, a := range x.Args {
+						if signed(a) {
+							return true
+						}
+					}
+				}
+				return false
+			case *ast.BinaryExpr:
+				if x.Op == token.MUL && types.ExprString(x.X) == types.ExprString(x.Y) {
+					return false
+				}
+				switch x.Op {
+				case token.ADD, token.SUB, token.MUL, token.QUO:
+					return signed(x.X) || signed(x.Y)
+				}
+				return false
+			case *ast.UnaryExpr:
+				return signed(x.X)
+			}
+			return false
+		}
+		// seeds
+		ast.Inspect(fd.Body, func(m ast.Node) bool {
+			is, ok := m.(*ast.IfStmt)
+			if !ok {
+				return true
+			}
+			for _, st := range is.Body.List {
+				as, ok := st.(*ast.AssignStmt)
+				if !ok || len(as.Lhs) != 1 || len(as.Rhs) != 1 || as.Tok != token.ASSIGN {
+					continue
+				}
+				id, ok := as.Lhs[0].(*ast.Ident)
+				un, ok2 := core.Unparen(as.Rhs[0]).(*ast.UnaryExpr)
+				if ok && ok2 && un.Op == token.SUB {
+					if rid, ok := core.Unparen(un.X).(*ast.Ident); ok && core.ObjOf(info, rid) == core.ObjOf(info, id) {
+						if b, ok := info.TypeOf(id).Underlying().(*types.Basic); ok && b.Info()&types.IsFloat != 0 {
+							tainted[core.ObjOf(info, id)] = true
+						}
+					}
+				}
+			}
+			return true
+		})
+		if len(tainted) == 0 {
+			continue
+		}
+		for changed := true; changed; {
+			changed = false
+			ast.Inspect(fd.Body, func(m ast.Node) bool {
+				as, ok := m.(*ast.AssignStmt)
+				if !ok || len(as.Lhs) != len(as.Rhs) {
+					return true
+				}
+				for i, l := range as.Lhs {
+					id, ok := l.(*ast.Ident)
+					if !ok {
+						continue
+					}
+					o := core.ObjOf(info, id)
+					if o == nil || tainted[o] {
+						continue
+					}
+					if b, ok := o.Type().Underlying().(*types.Basic); !ok || b.Info()&types.IsFloat == 0 {
+						continue
+					}
+					if signed(as.Rhs[i]) {
+						tainted[o], changed = true, true
+					}
+				}
+				return true
+			})
+		}
+		fname := "canvas." + core.FuncName(fd)
+		ord := 0
+		ast.Inspect(fd.Body, func(m ast.Node) bool {
+			be, ok := m.(*ast.BinaryExpr)
+			if !ok || (be.Op != token.LSS && be.Op != token.LEQ && be.Op != token.GTR && be.Op != token.GEQ) {
+				return true
+			}
+			sx, sy := signed(be.X), signed(be.Y)
+			if !sx && !sy {
+				return true
+			}
+			ord++
+			n++
+			key := fmt.Sprintf("%s|ordering comparison of an orientation-signed value #%d", fname, ord)
+			isZero := func(e ast.Expr) bool {
+				if tv, ok := info.Types[e]; ok && tv.Value != nil {
+					return constant.Sign(tv.Value) == 0
+				}
+				return false
+			}
+			switch {
+			case sx && sy:
+				r.OK("E11.signed-magnitude", key, c.Pos(be.Pos()), "both sides signed")
+			case isZero(be.X) || isZero(be.Y):
+				r.OK("E11.signed-magnitude", key, c.Pos(be.Pos()), "sign test")
+			default:
+				r.Fail("E11.signed-magnitude", key, c.Pos(be.Pos()), fmt.Sprintf("`%s` compares a value whose sign is the bend's orientation with a magnitude, without math.Abs: the test can only succeed for one turn direction", types.ExprString(be)))
+			}
+			return true
+		})
+	}
+	r.Count("E11.signed-comparisons", n)
+	r.Floor("E11.signed-comparisons", 1)
+}
+
+// E11CutInterval: the segments of SplitAt claim the cut positions by one half-open interval convention.
+func E11CutInterval(c *core.Ctx, r *core.Report) {
+	r.Rule("E11.cut-interval", "Path.SplitAt hands every cut position to the segment whose length interval contains it. The loops that select the cuts of a segment (one per command case) bound `ts[j]` below by the running length T and above by T+dT; sibling agreement: all cases use the same pair of comparison operators and exactly one of the two is strict, so that the intervals of consecutive segments tile the path — a position on a junction belongs to exactly one of the two segments. If the line case takes [T, T+dT) while the curve cases take (T, T+dT], a cut on a line→curve junction is claimed by neither; the cut list then stalls there and Dash keeps the wrong pieces")
+	p := c.MustPkg("")
+	info := p.TypesInfo
+	fd := core.MustFuncDecl(p, "Path.SplitAt")
+	r.Func("canvas.Path.SplitAt")
+	tsObj := paramObj(info, fd, 0)
+	type site struct {
+		label         string
+		pos           token.Pos
+		lowStrict     bool
+		upStrict      bool
+		hasLow, hasUp bool
+	}
+	var sites []site
+	isCut := func(e ast.Expr) bool {
+		ie, ok := core.Unparen(e).(*ast.IndexExpr)
+		if !ok {
+			return false
+		}
+		id, ok := core.Unparen(ie.X).(*ast.Ident)
+		return ok && core.ObjOf(info, id) == tsObj
+	}
+	for _, cc := range cmdSwitchClauses(p, fd) {
+		label := core.CaseLabel(info, cc)
+		ord := 0
+		ast.Inspect(cc, func(m ast.Node) bool {
+			fs, ok := m.(*ast.ForStmt)
+			if !ok || fs.Cond == nil {
+				return true
+			}
+			s := site{pos: fs.Pos()}
+			ast.Inspect(fs.Cond, func(k ast.Node) bool {
+				be, ok := k.(*ast.BinaryExpr)
+				if !ok {
+					return true
+				}
+				var strict, lower bool
+				switch be.Op {
+				case token.LSS, token.GTR:
+					strict = true
+				case token.LEQ, token.GEQ:
+				default:
+					return true
+				}
+				cutLeft := isCut(be.X)
+				if !cutLeft && !isCut(be.Y) {
+					return true
+				}
+				// ts[j] on the greater side: a lower bound
+				lower = (cutLeft && (be.Op == token.GTR || be.Op == token.GEQ)) || (!cutLeft && (be.Op == token.LSS || be.Op == token.LEQ))
+				if lower {
+					s.hasLow, s.lowStrict = true, strict
+				} else {
+					s.hasUp, s.upStrict = true, strict
+				}
+				return true
+			})
+			if s.hasLow && s.hasUp {
+				ord++
+				s.label = label
+				if ord > 1 {
+					s.label += fmt.Sprintf(" #%d", ord)
+				}
+				sites = append(sites, s)
+			}
+			return true
+		})
+	}
+	// the convention of the majority
+	count := map[[2]bool]int{}
+	for _, s := range sites {
+		count[[2]bool{s.lowStrict, s.upStrict}]++
+	}
+	var major [2]bool
+	best := -1
+	for k, v := range count {
+		if v > best || (v == best && k[0] && !k[1]) {
+			major, best = k, v
+		}
+	}
+	show := func(lo, up bool) string {
+		a, b := "[", "]"
+		if lo {
+			a = "("
+		}
+		if up {
+			b = ")"
+		}
+		return a + "T, T+dT" + b
+	}
+	for _, s := range sites {
+		key := "canvas.Path.SplitAt|" + s.label + "|interval of the cuts this segment claims"
+		switch {
+		case s.lowStrict == s.upStrict:
+			r.Fail("E11.cut-interval", key, c.Pos(s.pos), "the segment claims "+show(s.lowStrict, s.upStrict)+": consecutive segments either both claim a cut on their junction or neither does")
+		case [2]bool{s.lowStrict, s.upStrict} != major:
+			r.Fail("E11.cut-interval", key, c.Pos(s.pos), "this case claims "+show(s.lowStrict, s.upStrict)+" while the other cases claim "+show(major[0], major[1])+": a cut exactly on the junction between this kind of segment and the others is claimed twice or not at all")
+		default:
+			r.OK("E11.cut-interval", key, c.Pos(s.pos), show(s.lowStrict, s.upStrict))
+		}
+	}
+	r.Count("E11.cut-interval-loops", len(sites))
+	r.Floor("E11.cut-interval-loops", 4)
+}
+
+// E11ReversedFrame: a segment looked at backwards has its direction turned and its curvature negated.
+func E11ReversedFrame(c *core.Ctx, r *core.Report) {
+	r.Rule("E11.reversed-frame", "Path.CCW compares, at the right-most vertex, the segment that arrives with the one that leaves. The arriving segment is looked at backwards from the vertex: its direction is turned by π — and the signed curvature of a curve traversed backwards is the negative of its curvature. For each segment index the two quantities are therefore taken in the same frame: the direction obtained from direction(K, t) is turned (± math.Pi or Neg) if and only if the value obtained from curvature(K, t) is negated. With only the direction reversed, a cusp where the arriving curve bends more strongly than the leaving one is classified with the opposite orientation, and Filling/Offset inherit it")
+	p := c.MustPkg("")
+	info := p.TypesInfo
+	fd := core.MustFuncDecl(p, "Path.CCW")
+	r.Func("canvas.Path.CCW")
+	type frame struct {
+		hasDir, hasCurv   bool
+		dirRev, curvNeg   bool
+		dirPos, curvPos   token.Pos
+		conflictingFrames bool
+	}
+	frames := map[types.Object]*frame{}
+	names := map[types.Object]string{}
+	get := func(o types.Object) *frame {
+		if frames[o] == nil {
+			frames[o] = &frame{}
+		}
+		return frames[o]
+	}
+	ast.Inspect(fd.Body, func(m ast.Node) bool {
+		as, ok := m.(*ast.AssignStmt)
+		if !ok || len(as.Rhs) != 1 {
+			return true
+		}
+		rhs := as.Rhs[0]
+		// locate a direction/curvature call with an identifier as its first argument
+		var call *ast.CallExpr
+		var kind string
+		neg := 0
+		var find func(e ast.Expr, negs int)
+		find = func(e ast.Expr, negs int) {
+			switch x := core.Unparen(e).(type) {
+			case *ast.CallExpr:
+				if f := core.CalleeOf(info, x); f != nil && (f.Name() == "direction" || f.Name() == "curvature") && len(x.Args) >= 1 {
+					if call == nil {
+						call, kind, neg = x, f.Name(), negs
+					}
+					return
+				}
+				if se, ok := x.Fun.(*ast.SelectorExpr); ok {
+					find(se.X, negs)
+				}
+				for _, a := range x.Args {
+					find(a, negs)
+				}
+			case *ast.UnaryExpr:
+				if x.Op == token.SUB {
+					find(x.X, negs+1)
+				} else {
+					find(x.X, negs)
+				}
+			case *ast.BinaryExpr:
+				find(x.X, negs)
+				if x.Op == token.SUB {
+					find(x.Y, negs+1)
+				} else {
+					find(x.Y, negs)
+				}
+			case *ast.SelectorExpr:
+				find(x.X, negs)
+			}
+		}
+		find(rhs, 0)
+		if call == nil {
+			return true
+		}
+		id, ok := core.Unparen(call.Args[0]).(*ast.Ident)
+		if !ok {
+			return true
+		}
+		o := core.ObjOf(info, id)
+		names[o] = id.Name
+		f := get(o)
+		if kind == "direction" {
+			rev := false
+			ast.Inspect(rhs, func(k ast.Node) bool {
+				switch x := k.(type) {
+				case *ast.SelectorExpr:
+					if pk, ok := x.X.(*ast.Ident); ok && pk.Name == "math" && x.Sel.Name == "Pi" {
+						rev = !rev
+					}
+				case *ast.CallExpr:
+					if fn := core.CalleeOf(info, x); fn != nil && fn.Name() == "Neg" {
+						rev = !rev
+					}
+				}
+				return true
+			})
+			if f.hasDir && f.dirRev != rev {
+				f.conflictingFrames = true
+			}
+			f.hasDir, f.dirRev, f.dirPos = true, rev, as.Pos()
+		} else {
+			ng := neg%2 == 1
+			if f.hasCurv && f.curvNeg != ng {
+				f.conflictingFrames = true
+			}
+			f.hasCurv, f.curvNeg, f.curvPos = true, ng, as.Pos()
+		}
+		return true
+	})
+	n := 0
+	var objs []types.Object
+	for o := range frames {
+		objs = append(objs, o)
+	}
+	sort.Slice(objs, func(i, j int) bool { return objs[i].Pos() < objs[j].Pos() })
+	for _, o := range objs {
+		f := frames[o]
+		if !f.hasDir || !f.hasCurv {
+			continue
+		}
+		n++
+		role := "leaving segment"
+		if f.dirRev {
+			role = "arriving segment (viewed backwards)"
+		}
+		key := "canvas.Path.CCW|" + role + "|direction and curvature in one frame"
+		switch {
+		case f.conflictingFrames:
+			r.Fail("E11.reversed-frame", key, c.Pos(f.dirPos), "the segment index `"+names[o]+"` is used in both frames")
+		case f.dirRev != f.curvNeg:
+			r.Fail("E11.reversed-frame", key, c.Pos(f.curvPos), fmt.Sprintf("direction(%s, …) is %s but curvature(%s, …) is %s: the two are compared as if measured along the same direction of travel", names[o], map[bool]string{true: "turned by π", false: "taken as it is"}[f.dirRev], names[o], map[bool]string{true: "negated", false: "taken as it is"}[f.curvNeg]))
+		default:
+			r.OK("E11.reversed-frame", key, c.Pos(f.dirPos), "")
+		}
+	}
+	r.Count("E11.reversed-frame-segments", n)
+	r.Floor("E11.reversed-frame-segments", 2)
 }
